@@ -176,6 +176,8 @@ pub struct Meta {
     pub stitches: Vec<String>,
     /// names of externals referenced ("x()") with their arg counts
     pub externals: Vec<(String, usize)>,
+    /// top-level containers the story itself calls as functions ("f()")
+    pub functions: Vec<String>,
     /// list definitions: name -> items
     pub lists: Vec<(String, Vec<(String, i64)>)>,
 }
@@ -226,6 +228,11 @@ fn walk_container(arr: &[J], path: &str, meta: &mut Meta, depth: usize) {
                 walk_container(sub, &p2, meta, depth + 1);
             }
             J::Object(o) => {
+                if let Some(name) = o.get("f()").and_then(|v| v.as_str()) {
+                    if !name.contains('.') && !meta.functions.iter().any(|n| n == name) {
+                        meta.functions.push(name.to_string());
+                    }
+                }
                 if let Some(name) = o.get("x()").and_then(|v| v.as_str()) {
                     let nargs = o.get("exArgs").and_then(|v| v.as_u64()).unwrap_or(0) as usize;
                     if !meta.externals.iter().any(|(n, _)| n == name) {
@@ -617,6 +624,8 @@ pub struct Host {
     pub meta: Rc<Meta>,
     /// externals currently bound (as far as the host's own calls tell)
     pub bound: std::collections::BTreeSet<String>,
+    /// look-ahead safety each of them was last bound with
+    pub bound_safe: std::collections::BTreeMap<String, bool>,
 }
 
 pub const N_OBSERVERS: usize = 3;
@@ -637,9 +646,11 @@ impl Host {
         }
         story.set_allow_external_function_fallbacks(cfg.allow_fallbacks);
         let mut bound = std::collections::BTreeSet::new();
+        let mut bound_safe = std::collections::BTreeMap::new();
         if let Some(safe) = cfg.bind_externals {
             for (name, _) in &meta.externals {
                 bound.insert(name.clone());
+                bound_safe.insert(name.clone(), safe);
                 let _ = story.bind_external_function(
                     name,
                     Rc::new(RefCell::new(Ext {
@@ -668,6 +679,7 @@ impl Host {
             cfg: cfg.clone(),
             meta,
             bound,
+            bound_safe,
         })
     }
 
@@ -901,6 +913,7 @@ impl Host {
                 match r {
                     Ok(()) => {
                         self.bound.insert(name.clone());
+                        self.bound_safe.insert(name.clone(), *safe);
                         self.trace.push(Obs::Ret(format!("bound {name}")))
                     }
                     Err(e) => self.push_err(&e),
